@@ -413,6 +413,15 @@ class Summariser:
         c = self.expr(node.test, st)
         if N.is_const(c):
             return self.block(node.body if c[2] else node.orelse, st)
+        # infeasible-path pruning: the same immutable condition was already decided on this path
+        if not any(x[0] in ("new", "newctx", "getvalue", "rawio") for x in N.walk(c)):
+            nc = N.mk_not(c)
+            for e in st.events:
+                if e.kind == "ASSUME" and e.depth == st.depth:
+                    if e.a["cond"] == c:
+                        return self.block(node.body, st)
+                    if e.a["cond"] == nc:
+                        return self.block(node.orelse, st)
         out = []
         s1 = st.fork()
         self.emit(s1, "ASSUME", {"cond": c}, node)
